@@ -1,0 +1,49 @@
+// Copyright 2026 Dolthub, Inc.
+//
+// Licensed under the Apache License, Version 2.0 (the "License");
+// you may not use this file except in compliance with the License.
+// You may obtain a copy of the License at
+//
+//     http://www.apache.org/licenses/LICENSE-2.0
+//
+// Unless required by applicable law or agreed to in writing, software
+// distributed under the License is distributed on an "AS IS" BASIS,
+// WITHOUT WARRANTIES OR CONDITIONS OF ANY KIND, either express or implied.
+// See the License for the specific language governing permissions and
+// limitations under the License.
+
+//go:build verif
+
+package branch_control
+
+// Machine-checked contracts for /verif (comment-only; see /verif/DESIGN.md §2.2).
+
+// ---- branch permissions follow the documented matching (C38)
+
+// Namespace.CanCreate, longest-match filter: the rules handed on to the user / host matching are only rules whose
+// branch pattern has the maximal length among all rules that matched the branch name (a shorter, more general rule
+// never overrides a longer, more specific one), whatever the order of the rules in the table
+//@ func (*Namespace).CanCreate
+//@   property C38
+//@   at call filterUsers: assert verif_sameslice(arg1:[]uint32, filteredIndexes)
+//@   at call filterUsers: assert forall k in 0..len(filteredIndexes): len(tbl.Values[filteredIndexes[k]].Branch) == longest
+//@   loop 1
+//@     invariant 0 <= verif_rangeidx() && verif_rangeidx() <= len(matchedSet) && longest >= -1
+//@     invariant forall k in 0..len(filteredIndexes): len(tbl.Values[filteredIndexes[k]].Branch) == longest
+//@     invariant forall k in 0..verif_rangeidx(): len(tbl.Values[matchedSet[k]].Branch) <= longest
+
+// Access.MatchIgnoringRow: the permissions returned come from the longest matching rules only (ties are OR-ed
+// together), an ignored row contributes nothing, and higher permissions imply the lower ones
+//@ func (*Access).MatchIgnoringRow
+//@   property C38
+//@   ensures  result1&Permissions_Admin == Permissions_Admin ==> result1&(Permissions_Write|Permissions_Merge|Permissions_Read) == Permissions_Write|Permissions_Merge|Permissions_Read
+//@   ensures  result1&Permissions_Write == Permissions_Write ==> result1&(Permissions_Merge|Permissions_Read) == Permissions_Merge|Permissions_Read
+//@   ensures  result1&Permissions_Merge == Permissions_Merge ==> result1&Permissions_Read == Permissions_Read
+//@   loop 1
+//@     invariant 0 <= verif_rangeidx() && verif_rangeidx() <= len(results)
+//@     invariant forall k in 0..verif_rangeidx(): int64(results[k].RowIndex) == rowToIgnore || results[k].Length <= length
+//@     invariant forall k in 0..verif_rangeidx(): int64(results[k].RowIndex) == rowToIgnore || results[k].Length != length || results[k].Permissions&^perms == 0
+//@     invariant perms&Permissions_Admin == 0 || exists k in 0..verif_rangeidx(): int64(results[k].RowIndex) != rowToIgnore && results[k].Length == length && results[k].Permissions&Permissions_Admin != 0
+//@     invariant perms&Permissions_Write == 0 || exists k in 0..verif_rangeidx(): int64(results[k].RowIndex) != rowToIgnore && results[k].Length == length && results[k].Permissions&Permissions_Write != 0
+//@     invariant perms&Permissions_Merge == 0 || exists k in 0..verif_rangeidx(): int64(results[k].RowIndex) != rowToIgnore && results[k].Length == length && results[k].Permissions&Permissions_Merge != 0
+//@     invariant perms&Permissions_Read == 0 || exists k in 0..verif_rangeidx(): int64(results[k].RowIndex) != rowToIgnore && results[k].Length == length && results[k].Permissions&Permissions_Read != 0
